@@ -72,12 +72,16 @@ class Recorder:
         return e[0]
 
     def funcnum(self, fn):
+        """Functions are identified by (module, qualname, code object): a closure re-created on every call of its
+        outer function is the same function for attribution purposes (the tracer caches per code object)."""
         if fn is None:
             return None
-        e = self.funcs.get(id(fn))
-        if e is None or e[1] is not fn:
+        code = getattr(fn, "__code__", None)
+        key = (getattr(fn, "__module__", None), getattr(fn, "__qualname__", None), id(code))
+        e = self.funcs.get(key)
+        if e is None:
             e = (len(self.funcs) + 1, fn)
-            self.funcs[id(fn)] = e
+            self.funcs[key] = e
         return e[0]
 
     def code_term(self, frame):
